@@ -749,6 +749,8 @@ func checkC02(r *Run) {
 	textScannerRuleSSA(r, "R4")
 	r.Rule("R5", "literal text stays byte-identical: on the literal-text path of the lexer no single byte is converted to a string (string(b) re-encodes bytes >= 0x80)", 1)
 	literalBytesRule(r, "R5")
+	r.Rule("R6", "quoted strings: the string scanners never step over a closing quote unexamined (only the \\\" escape of double-quoted strings does), every way round their loop has compared the current byte with the closing quote, back-quoted strings are returned raw and double-quoted ones with \\\" replaced by a quote", 2)
+	stringScannerRuleSSA(r, "R6")
 }
 
 // textScannerRule: must-pass-through of the tag-start test in the literal-text loop.
